@@ -549,6 +549,22 @@ def chk7_scalar_implementations(ctx):
     bodies = [b for b in P.fn_bodies() if b.crate == 'locustdb' and
               re.search(r'numeric_operators::<\w+<.*> as CheckedBinaryOp<.*>>::perform_checked$', b.name)]
     ctx.require(len(bodies) >= 5, 'CHK-7: expected 5 perform_checked bodies, found %d' % len(bodies))
+    # checked accumulators of SUM (accumulate / combine partial accumulators)
+    accs = [b for b in P.fn_bodies() if b.crate == 'locustdb' and
+            re.search(r'aggregate::<\w+ as CheckedAggregator<.*>>::(accumulate_checked|combine_checked)$', b.name)]
+    ctx.require(len(accs) >= 2, 'CHK-7: checked accumulator bodies not found (%d)' % len(accs))
+    for b in sorted(accs, key=lambda x: x.name):
+        b.parse()
+        raw = [s for blk in b.blocks.values() if not blk.cleanup for s in blk.stmts
+               if s.kind == 'assign' and re.match(r'^(Add|Sub|Mul|AddWithOverflow|SubWithOverflow|MulWithOverflow)\(', s.rhs)]
+        calls = [norm_callee(t.func) for blk, t in b.calls() if not blk.cleanup]
+        inexact = [c for c in calls if INEXACT_CALLS.match(c)]
+        exact = [c for c in calls if EXACT_CALLS.match(c)]
+        short = re.search(r'<(\w+) as', b.name).group(1) + '::' + b.name.split('::')[-1]
+        ctx.check('CHK-7', '%s|no-raw-add' % short, not raw and not inexact and bool(exact),
+                  'checked accumulator uses %s (raw ops: %d, inexact calls: %s)'
+                  % (sorted(set(c.split('::')[-1] for c in exact)), len(raw), inexact),
+                  where(b.blocks[0].term))
     for b in sorted(bodies, key=lambda x: x.name):
         short = re.search(r'<(\w+)<', b.name).group(1)
         b.parse()
